@@ -36,6 +36,7 @@ type ServerCfg struct {
 	WriteQueueSize int
 	MaxPacketSize  int
 	Medias         int // medias of the served stream (default 2)
+	ExtraFormats   int // additional formats offered by the first media (default 0)
 	AuthUser       string
 	AuthPass       string
 	IP             string // listen address, default 127.0.0.1
@@ -324,6 +325,16 @@ func DefaultDesc(n int) *description.Session {
 	return d
 }
 
+// DefaultDescX is DefaultDesc with `extra` additional formats on the first media
+// (a media that offers several payload types, each with its own SSRC and sequence space).
+func DefaultDescX(n, extra int) *description.Session {
+	d := DefaultDesc(n)
+	for e := 0; e < extra && len(d.Medias) > 0; e++ {
+		d.Medias[0].Formats = append(d.Medias[0].Formats, &format.H265{PayloadTyp: uint8(110 + e)})
+	}
+	return d
+}
+
 // Start starts a server bed.
 func Start(cfg ServerCfg) (*Bed, error) {
 	b := &Bed{Cfg: cfg}
@@ -384,7 +395,7 @@ func Start(cfg ServerCfg) (*Bed, error) {
 	if n == 0 {
 		n = 2
 	}
-	b.Desc = DefaultDesc(n)
+	b.Desc = DefaultDescX(n, cfg.ExtraFormats)
 	b.Stream = &gortsplib.ServerStream{Server: b.S, Desc: b.Desc}
 	if err := b.Stream.Initialize(); err != nil {
 		b.S.Close()
